@@ -31,7 +31,16 @@ pub const ADD: u8 = 0x01;
 pub const MUL: u8 = 0x02;
 pub const SUB: u8 = 0x03;
 pub const DIV: u8 = 0x04;
+pub const SDIV: u8 = 0x05;
 pub const EXP: u8 = 0x0a;
+pub const SIGNEXTEND: u8 = 0x0b;
+pub const XOR: u8 = 0x18;
+pub const BYTE: u8 = 0x1a;
+pub const SAR: u8 = 0x1d;
+pub const BALANCE: u8 = 0x31;
+pub const EXTCODESIZE: u8 = 0x3b;
+pub const EXTCODEHASH: u8 = 0x3f;
+pub const BLOCKHASH: u8 = 0x40;
 pub const LT: u8 = 0x10;
 pub const EQ: u8 = 0x14;
 pub const ISZERO: u8 = 0x15;
